@@ -10,7 +10,15 @@ CONSTANTS
   WithReopen = FALSE
   WithCenter = FALSE
   Repaired = TRUE
+  Contents <- AllContents
+  SizeClasses = {"s"}
+  MaxBig = 0
+  WriteLimit = 128
+  MergeLimit = 333
+  CacheChoices = {FALSE}
+  ReadOptional = FALSE
+  Purge = TRUE
 VIEW view
-INVARIANTS TypeOK ReadsConsistent ImplAgreesSuffrageProof ImplAgreesProofByBlockHeight
-PROPERTIES ReadersMonotone
+INVARIANTS TypeOK ReadsConsistent ImplAgreesSuffrageProof ImplAgreesProofByBlockHeight ImplStateAgrees CacheFresh BatchesCarryEveryRecord
+PROPERTIES ReadersMonotone MemoryInvisible
 CHECK_DEADLOCK FALSE
